@@ -19,7 +19,8 @@ RULE = ("case = (ordered item tuple, position of the first item among the column
         "construction; non-trivial = every case (each carries >= 1 constraint); distinct by rendered DDL")
 ASSUMPTIONS = ["identifier spelling is identical between declaration and clause"]
 
-COLS = ["a", "b", "c", "d"]
+COLS = ["a", "b", "c", "d", "ca"]  # "ca" contains the names of two other columns: name matching must be by equality, not by substring
+MODES = ["sql", "mssql", "mysql", "bigquery", "oracle", "postgres", "hql", "redshift", "snowflake", "spark_sql", "databricks", "sqlite", "vertics", "ibm_db2", "athena"]
 ACTS = [(), (("DELETE", "CASCADE"),), (("UPDATE", "RESTRICT"),), (("DELETE", "CASCADE"), ("UPDATE", "RESTRICT")),
         (("UPDATE", "RESTRICT"), ("DELETE", "CASCADE"))]
 ACTS2 = [(("DELETE", "SET NULL"),), (("UPDATE", "NO ACTION"),), (("DELETE", "SET DEFAULT"), ("UPDATE", "CASCADE")),
@@ -34,6 +35,12 @@ def items():
             out.append(["pk", list(cols), "pk_n"])
             out.append(["uq", list(cols), None])
             out.append(["uq", list(cols), "uq_n"])
+    # a constraint on the column whose name contains other column names, and keys written the SQL Server way with sort directions
+    out += [["uq", ["ca"], None], ["uq", ["ca"], "uq_n"], ["pk", ["ca", "a"], None], ["iuq", "ca"]]
+    for cols in (["a", "b", "c"], ["c", "a"], ["b"]):
+        for name in (None, "pk_n"):
+            out.append(["pk", cols, name, "clustered-dirs"])
+            out.append(["pk", cols, name, "dirs"])
     for cols, rc in [(["a"], ["x"]), (["b", "c"], ["x", "y"])]:
         for name in (None, "fk_n"):
             for act in ACTS + ACTS2:
@@ -73,7 +80,12 @@ def two_word(it):
 def render_item(it):
     k = it[0]
     if k == "pk":
-        return ("CONSTRAINT %s " % it[2] if it[2] else "") + "PRIMARY KEY (%s)" % ", ".join(it[1])
+        cols = list(it[1])
+        style = it[3] if len(it) > 3 else None
+        if style:
+            dirs = [" ASC", "", " DESC"]
+            cols = [c + dirs[i % 3] for i, c in enumerate(cols)]
+        return ("CONSTRAINT %s " % it[2] if it[2] else "") + "PRIMARY KEY %s(%s)" % ("CLUSTERED " if style == "clustered-dirs" else "", ", ".join(cols))
     if k == "uq":
         return ("CONSTRAINT %s " % it[2] if it[2] else "") + "UNIQUE (%s)" % ", ".join(it[1])
     if k == "fk":
@@ -168,7 +180,15 @@ def gen_cases(tier):
             if compatible(a, b):
                 for j in (1, 2, 3):
                     cases.append({"items": [a, b], "pos": j})
-    return cases
+    # the same declarations under every output mode: single items in all 15 modes, the other cases in one mode each (round robin)
+    extra = []
+    for c in cases:
+        if len(c["items"]) == 1 and c["pos"] == "end":
+            extra += [dict(c, mode=m) for m in MODES[1:]]
+    for n, c in enumerate(cases):
+        if n % 2:
+            c["mode"] = MODES[(n // 2) % len(MODES)]
+    return cases + extra
 
 
 def build(case):
@@ -333,7 +353,7 @@ def _ref_check(cols, c, rcol, sch, od, ou):
 
 def evaluate(case):
     ddl = build(case)
-    r = run_ddl(ddl)
+    r = run_ddl(ddl, None, {"output_mode": case.get("mode", "sql")})
     if r[0] != "ok":
         return {"diffs": [diff("run", "raises", "result", r[1:3])], "outcome": "exc"}
     D = check(case, r[1])
@@ -341,8 +361,8 @@ def evaluate(case):
 
 
 def describe(case):
-    return {"ddl": build(case), "items": case["items"], "pos": case["pos"]}
+    return {"ddl": build(case), "items": case["items"], "pos": case["pos"], "output_mode": case.get("mode", "sql")}
 
 
 def snippet(case):
-    return _snip(build(case))
+    return _snip(build(case), None, {"output_mode": case.get("mode", "sql")})
